@@ -7,7 +7,7 @@ import itertools
 from .. import lek
 from ..astq import U, calls, call_name, fn_walk, self_attr, stmt_key, walk
 from ..cfg import CFG
-from ..absbase import FinamInterp, Logger
+from ..absbase import FinamInterp, Logger, Ref
 from ..interp import Closure, Obj, Raised, Sym, Undecided
 from ..loader import AnalysisError, body_of
 from ..schedmodel import SchedInterp, Topo, data_path_term
@@ -849,16 +849,172 @@ def _r05_termination(repo, sink, f, fn, loop, cfg, call):
 
 
 # =========================================================================== R01
+class _Slots(dict):
+    """The slots of a component under analysis: any name the code asks for exists."""
+
+    def __missing__(self, k):
+        v = Obj(label=k, markers={"slot"})
+        self[k] = v
+        return v
+
+
+class _UpdateInterp(FinamInterp):
+    """One abstract _update of an in-repo component against recording slot stand-ins (time = 0, step = 2)."""
+
+    def __init__(self, repo):
+        super().__init__(repo)
+        self.pulls, self.pushes = [], []
+
+    # the clock is a symbol and calendar arithmetic stays uninterpreted: with month steps (relativedelta) neither
+    # (t + s) + s == t + 2 * s nor any other regrouping holds, so two time expressions agree only if they are the same term
+    def ext_isinstance(self, v, name, node):
+        if name == "datetime":
+            return isinstance(v, Sym) and v.op in ("T0", "tadd")
+        if name in ("timedelta", "relativedelta"):
+            return isinstance(v, Sym) and v.op in ("step", "smul")
+        return super().ext_isinstance(v, name, node)
+
+    def binop(self, op, left, right, node):
+        tl = isinstance(left, Sym) and left.op in ("T0", "tadd")
+        tr = isinstance(right, Sym) and right.op in ("T0", "tadd")
+        sl = isinstance(left, Sym) and left.op in ("step", "smul")
+        sr = isinstance(right, Sym) and right.op in ("step", "smul")
+        if isinstance(op, ast.Add) and ((tl and sr) or (sl and tr)):
+            return Sym("tadd", left, right) if tl else Sym("tadd", right, left)
+        if isinstance(op, ast.Mult) and ((sl and isinstance(right, int)) or (sr and isinstance(left, int))):
+            st, n = (left, right) if sl else (right, left)
+            return st if n == 1 else Sym("smul", st, n)
+        if isinstance(op, ast.Add) and sl and sr:
+            return Sym("smul", left, right)
+        return super().binop(op, left, right, node)
+
+    def decide(self, cond, node):
+        if isinstance(cond, Sym) and cond.op in ("T0", "tadd", "step", "smul"):
+            return True
+        return super().decide(cond, node)
+
+    def call_hook_is_timedelta(self):
+        return True
+
+    def get_item(self, c, k, node):
+        if isinstance(c, _Slots):
+            return c[k]
+        return super().get_item(c, k, node)
+
+    def get_attr(self, obj, attr, node, mod):
+        if isinstance(obj, Obj) and "slot" in obj.markers:
+            if attr in ("pull_data", "push_data"):
+                return Sym("slotcall", Ref(obj), attr)
+            return Sym("slotattr", obj.label, attr)
+        if isinstance(obj, Sym) and obj.op in ("pulled", "slotattr", "attr", "tool", "copy", "called"):
+            return Sym("attr", obj, attr)
+        return super().get_attr(obj, attr, node, mod)
+
+    def ext_call(self, name, args, kwargs, node):
+        if name in ("copy.copy", "copy.deepcopy") or (name.split(".")[0] in ("np", "numpy") and args and isinstance(args[0], Sym)):
+            return Sym(name.split(".")[-1], *args)
+        return super().ext_call(name, args, kwargs, node)
+
+    def call_hook(self, fv, args, kwargs, node, mod):
+        if isinstance(fv, Sym) and fv.op == "slotcall":
+            slot, op = fv.args[0].obj, fv.args[1]
+            if op == "pull_data":
+                self.pulls.append((slot.label, args[0] if args else kwargs.get("time")))
+                return Sym("pulled", slot.label, args[0] if args else None)
+            self.pushes.append((slot.label, args[0] if args else None, args[1] if len(args) > 1 else kwargs.get("time")))
+            return None
+        if isinstance(fv, Sym) and fv.op == "X":
+            return {}  # a user call-back: publishes nothing
+        if isinstance(fv, Sym) and fv.op == "attr":
+            return Sym("called", fv, *args)  # a method of pulled data (`.item()`, `.copy()`): an uninterpreted value
+        if isinstance(fv, Closure) and getattr(fv.func, "name", "") == "is_timedelta":
+            return isinstance(args[0], Sym) and args[0].op in ("step", "smul")
+        if isinstance(fv, Closure) and getattr(fv.func, "name", "") in ("get_magnitude", "strip_time", "get_units", "quantify", "to_units"):
+            return Sym("tool", getattr(fv.func, "name", ""), *args)  # public finam.data.tools functions
+        return super().call_hook(fv, args, kwargs, node, mod)
+
+    def construct(self, cls, args, kwargs, node):
+        if not cls.name.startswith("_") and not cls.name.endswith("Error") and not self.repo.is_subclass(cls, "Exception"):
+            from ..absbase import seed_from_init
+            o = Obj(cls=cls, label=cls.name)
+            init = self.repo.resolve(cls, "__init__", "method")
+            names = [p for p in (init.params if init else []) if p != "self"]
+            bound = dict(zip(names, args))
+            bound.update(kwargs)
+            seed_from_init(self, cls, o, bound)
+            return o
+        return super().construct(cls, args, kwargs, node)
+
+
+def _abstract_update(repo, c):
+    """(announced next pull time, [(input, pull time)]) of one abstract _update; raises AnalysisError / Undecided / Raised when the
+    body is outside the vocabulary."""
+    from ..absbase import seed_from_init, set_backed
+    it = _UpdateInterp(repo)
+    params = {}
+    for k in repo.mro(c):
+        f = k.methods.get("__init__")
+        if f is None:
+            continue
+        a = f.node.args
+        pos = a.posonlyargs + a.args
+        for i, x in enumerate(pos):
+            n = x.arg
+            if n == "self" or n in params:
+                continue
+            if i >= len(pos) - len(a.defaults) and n not in ("start", "step", "inputs", "outputs", "callbacks"):
+                continue
+            params[n] = {"start": Sym("T0"), "step": Sym("step"), "end": Sym("X", "end"), "callbacks": {"A": Sym("X", "callback")}}.get(
+                n, {"A": Obj(label="infoA"), "B": Obj(label="infoB")} if n in ("inputs", "outputs") else Sym("X", n))
+    me = Obj(cls=c, label=c.name)
+    seed_from_init(it, c, me, params)
+    me.fields["logger"] = Logger(label="logger")
+    set_backed(repo, me, "inputs", _Slots({k: Obj(label=k, markers={"slot"}) for k in ("A", "B")}))
+    set_backed(repo, me, "outputs", _Slots({k: Obj(label=k, markers={"slot"}) for k in ("A", "B")}))
+    it.store_attr(me, "status", Sym("enum", "ComponentStatus", "VALIDATED"), None)
+    it.store_attr(me, "time", Sym("T0"), None)
+    g = repo.resolve(c, "next_time", "getter")
+    rounds = []
+    for _k in range(2):  # two consecutive updates: a clock recomputed from the start regroups the calendar arithmetic
+        ann = it.run(g, [], self_obj=me) if g is not None else it.run(repo.resolve(c, "_next_time"), [], self_obj=me)
+        it.pulls = []
+        it.run(repo.resolve(c, "_update"), [], self_obj=me)
+        it.store_attr(me, "status", Sym("enum", "ComponentStatus", "UPDATED"), None)
+        rounds.append((ann, list(it.pulls)))
+    return rounds
+
+
 def r01_next_pull(repo, sink):
     base = repo.cls("ITimeComponent")
     comps = [c for c in repo.subclasses(base, strict=True) if not repo.is_abstract(c)]
     sink.floor("R01", "time components", len(comps), 7)
+    decided = []
     for c in comps:
         nt = repo.resolve(c, "_next_time")
         up = repo.resolve(c, "_update")
         if nt is None or up is None:
             sink.unknown("R01", f"next-pull:{c.name}", (c.file, c.node.lineno), "no _next_time/_update")
             continue
+        # first choice: one abstract update (clock 0, step 2) against recording slots - independent of how the body is written
+        try:
+            rounds = _abstract_update(repo, c)
+        except (AnalysisError, Undecided, Raised, KeyError, TypeError):
+            rounds = None
+        if rounds is not None:
+            decided.append(c.name)
+            why, n_pulls = None, 0
+            for k, (ann, pulls) in enumerate(rounds, 1):
+                n_pulls += len(pulls)
+                wrong = [(n, t) for n, t in pulls if t != ann]
+                if ann is None and pulls:
+                    why = why or f"update {k}: next_time is None but _update pulls {pulls!r}"
+                elif wrong:
+                    why = why or (f"update {k}: the component announces {ann!r} and pulls {wrong!r} (calendar arithmetic is not regrouped: with month "
+                                  "steps start + 2 * step and (start + step) + step are different dates)")
+            sink.check(why is None, "R01", f"next-pull:{c.name}", up, ok=f"{n_pulls} pull(s) in two consecutive updates, each at the time announced before the update",
+                       bad=why or "", pulls=n_pulls)
+            continue
+        # fallback: syntactic clock terms (bodies with file / console / table handling outside the abstract vocabulary)
         rets = [n.value for n in fn_walk(nt.node) if isinstance(n, ast.Return)]
         if len(rets) != 1:
             sink.unknown("R01", f"next-pull:{c.name}", nt, "_next_time has several returns")
@@ -880,6 +1036,7 @@ def r01_next_pull(repo, sink):
         sink.check(not wrong and bool(pulls) or not pulls, "R01", f"next-pull:{c.name}", up,
                    ok=f"{len(pulls)} pull(s) in _update at the announced time {ann}",
                    bad=f"announced {ann}, pulls at {wrong}", pulls=len(pulls))
+    sink.note("R01.decided_by_abstract_update", decided)
 
 
 def _clock_term(e, clock):
